@@ -28,5 +28,27 @@ Definition dispatch (cmd : sx) : sx :=
       | Some sc', Some vs' => do_decode sc' vs'
       | _, _ => bad
       end
+  | L [I 3; sc; recs] =>
+      match d_scenario sc, d_list d_rec recs with
+      | Some sc', Some qs => x_list (fun q => x_list x_bool (judge_all sc' q)) qs
+      | _, _ => bad
+      end
+  | L [I 5; sc; m; qs] =>
+      match d_scenario sc, d_modes m,
+            d_list (fun q => match q with
+                             | L [st; a; k] => do st' <- d_state st; do a' <- d_action a; do k' <- d_Z k;
+                                               Some (st', a', k')
+                             | _ => None end) qs with
+      | Some sc', Some m', Some qs' =>
+          x_list (fun q => x_out m' (generative_step sc' m' (fst (fst q)) (snd (fst q)) (snd q))) qs'
+      | _, _, _ => bad
+      end
+  | L [I 6; sc; sts] =>
+      match d_scenario sc, d_list d_state sts with
+      | Some sc', Some sts' =>
+          x_list (fun st => L [x_bool (goal sc' st); x_state (net_reset sc' st);
+                               x_bool (state_eqb (net_reset sc' st) (initial_state sc'))]) sts'
+      | _, _ => bad
+      end
   | _ => bad
   end.
